@@ -101,10 +101,15 @@ def main():
         shutil.rmtree(d, ignore_errors=True)
     # 3. our check against the mutant
     t0 = time.time()
-    rc, out = sh([os.path.join(VERIF, "tools", "mutant"), pid, patch], cwd=VERIF, timeout=7200)
+    for attempt in range(3):
+        rc, out = sh([os.path.join(VERIF, "tools", "mutant"), pid, patch], cwd=VERIF, timeout=7200)
+        if "mutant-run exit=" in out:
+            break
+        print("tools/mutant infrastructure failure, retrying:", out[-300:])
     viol = [l for l in out.splitlines() if l.startswith("VIOLATION")]
     report["check"] = {"cmd": f"tools/mutant {pid} patch.diff", "exit": rc, "violation_lines": viol[:5],
                        "wall_s": round(time.time() - t0, 1),
+                       "infrastructure_error": "mutant-run exit=" not in out,
                        "caught": bool(viol) and rc != 0,
                        "with_input": bool(viol) and not all("no-failing-input-found" in v for v in viol)}
     print("check:", "CAUGHT" if report["check"]["caught"] else "MISSED", viol[:2])
